@@ -185,7 +185,7 @@ class FftScenario(Scenario):
             'oversampling 1..3, scalar or commensurate per-axis pixel scales, monolithic or segmented pupils of either parity no larger '
             'than the grid) through propagate_fft with one scratch buffer reused across the loop, dirty (NaN/inf/garbage) at the start and '
             'stale afterwards, sized exactly as advertised / larger / one short, plus refused calls (oversize shape, tilt-carrying '
-            'wavefront); distinct = distinct history digest; non-trivial = at least one fault (dirty, size, refuse, dup, cache) fired and at '
+            'wavefront); further workload ingredients added by the seeded rounds are listed in MANIFEST.json and DESIGN.md section 15; distinct = distinct history digest; non-trivial = at least one fault (dirty, size, refuse, dup, cache) fired and at '
             'least one FFT-vs-DFT or scratch-vs-no-scratch comparison was made')
     state_measure = 'distinct (grid parity, pupil parity, #fields, scratch size class, oversample, shape given?) tuples'
     assumptions = ['pupils no larger than the FFT grid (the supported regime)',
